@@ -69,6 +69,9 @@ class PBKDF2SHAHandler(PasswordHasher):
         hash_info = inspect_pbkdf2_hash(hash=hash, cls=self.HASH_INFO_CLS)
         if not hash_info:
             return False
+        if not 1 <= hash_info.rounds <= 0xFFFFFFFF:
+            # not an iteration count PBKDF2 can run (larger values overflow in hashlib)
+            return False
         new_hash = self.hash(
             secret=secret, salt=ab64_decode(hash_info.salt), rounds=hash_info.rounds
         )
